@@ -5,7 +5,7 @@ tokens with joint bits set) are parsed by the REAL parser (MIR).  On every path 
 expression subtree is compared with the nesting that a reference precedence-climbing parser derives from the
 OpenQASM 3 operator table in /verif/spec/grammar.py, for EVERY operator assignment the solver admits on the
 path (feasible assignments are enumerated with blocking clauses, so each of the 19x19 pairs is decided).
-Part (b) (typed accessors) needs the AST boundary (stage 2) - see DESIGN section 7.
+Part (b) (typed accessor roles) is vf/c05_roles.py (stage 2).
 """
 import json, os, hashlib, collections, itertools
 import z3
@@ -465,7 +465,9 @@ def run(ctx):
     res.bounds.update({"skeletons": [e[0] for e in exprs], "contexts": ctxs, "binary_operators": 19, "unary_operators": 3,
                        "operator_assignments": "all (enumerated per path with blocking clauses)"})
     res.assumptions += ["operator table of /verif/spec/grammar.py = OpenQASM 3 precedence table"]
-    res.outside_claim += ["typed AST accessor roles (part b; needs the AST boundary)", "expressions with more than 4 operands"]
+    from . import c05_roles
+    c05_roles.run_roles(ctx, res)
+    res.outside_claim += ["accessor roles beyond the hand-written accessors listed in functions_encoded (generated child-by-type accessors)", "expressions with more than 4 operands"]
     res.exhaustive = not res.inconclusive
     return res
 
